@@ -117,9 +117,23 @@ func genAcr(t *rapid.T, thorough bool) AcrCase {
 	if thorough {
 		o.BigTips = 150
 	}
+	// one case in fifteen has more states than a machine word has bits (63..80 states, e.g. countries
+	// or hosts as character states) on a tree with at least as many tips
+	many := rapid.IntRange(0, 14).Draw(t, "manystates") == 9
+	if many {
+		o.MinTips, o.MaxTips, o.BigTips = 66, 110, 0
+	}
 	m := gen.Tree(t, o)
 	k := rapid.IntRange(1, 6).Draw(t, "k")
 	names := append([]string(nil), rapid.Permutation(stateNamePool).Draw(t, "names")[:k]...)
+	if many {
+		k = rapid.IntRange(63, 80).Draw(t, "kmany")
+		names = nil
+		for i := 0; i < k; i++ {
+			names = append(names, fmt.Sprintf("s%02d", i))
+		}
+		names = rapid.Permutation(names).Draw(t, "manynames")
+	}
 	kk := k
 	if rapid.IntRange(0, 4).Draw(t, "fewer") == 0 {
 		kk = rapid.IntRange(1, k).Draw(t, "kused")
@@ -334,6 +348,9 @@ func classifyAcr(c AcrCase) (bool, []string) {
 		return a
 	})
 	l := []string{"algo:" + c.Algo, fmt.Sprintf("random=%v", c.Random)}
+	if len(c.Names) > 64 {
+		l = append(l, "states>64")
+	}
 	poly, amb, tie3 := false, false, false
 	c.Tree.Walk(func(x, p *ref.Node) {
 		if x.IsTip() {
